@@ -158,6 +158,28 @@ func oracleC17(v *View, vd *Verdict) {
 				}
 			}
 			if !found {
+				// the very first write failed: the call is right to fail — and then nothing of it may
+				// live on (a retransmission that the gateway acknowledges after all)
+				if a.err != "nil" {
+					for i := a.invIdx; i < a.retIdx && i < len(v.R.Hist); i++ {
+						rec := v.R.Hist[i]
+						if rec.Ch != "cl.sn:"+cp.Name+">" || rec.Kind != "tx-error" {
+							continue
+						}
+						fp, err := refsn.Decode(rec.B)
+						if err != nil || fp.Type != refsn.PUBLISH {
+							continue
+						}
+						vd.Trigger = true
+						for _, t := range tx {
+							if t.Idx > a.retIdx && t.SNErr == nil && t.SN.Type == refsn.PUBLISH && t.SN.MsgID == fp.MsgID && t.SN.Dup {
+								vd.Add("C17", fmt.Sprintf("C17/publish-lives-on-after-failure/qos%d", q), "client %s: Publish QoS %d id %d returned %q (its first write failed), yet the PUBLISH was retransmitted at %d", cp.Name, q, fp.MsgID, a.err, t.T)
+								break
+							}
+						}
+						break
+					}
+				}
 				continue
 			}
 			mids[a.idx] = mid
@@ -254,6 +276,11 @@ func genC17(g *Gen, idx int) *Plan {
 		}
 		// the scripted gateway must not answer the client's PUBREC itself in this scenario
 		p.SGW.Rules = append(p.SGW.Rules, SGWRule{On: "PUBREC", Act: "ignore"})
+	}
+	if g.Bool(0.1) {
+		// the client's own write of a PUBLISH fails (ECONNREFUSED after an ICMP error), once
+		p.Family = "C17-write-error"
+		p.Cfg.SN.Rules = append(p.Cfg.SN.Rules, Rule{Dir: "c2g", Class: "PUBLISH", Skip: g.Intn(2), Count: 1, Act: "werr"})
 	}
 	if g.Bool(0.12) {
 		// the gateway never acknowledges a PUBLISH and disconnects the client while the call waits:
